@@ -1,5 +1,6 @@
 import Pandora.Drv.Util
 import Pandora.Model.C19
+import Pandora.Model.C19Run
 import Pandora.Spec.C19
 import Pandora.Drv.C19Vars
 
@@ -442,7 +443,7 @@ def handleLoop (kv : List (String × String)) (impl : String) : String × String
   | none => ("-", "fail:driver:unparsable sched")
   | some tokens =>
     let agg := getS (parseKV impl) "s"
-    let dtag := hexOfStr "discarded"
+    let dtag := hexOfStr discardedSample.tags  -- Model/C19Run.lean, = the constants of the current source (Bridge discardedSample_eq)
     let entries : List (String × String × String × Nat) := (agg.splitOn ",").filterMap fun e =>
       match e.splitOn "*" with
       | [k, c] => (match k.splitOn ":" with | [t, p, nt] => some (t, p, nt, c.toNat?.getD 0) | _ => none)
@@ -616,6 +617,26 @@ def handle : Handler := fun input impl =>
   | "xpath" => handleXpath kv impl
   | "idx" => handleIdx kv impl
   | "jsonpath" => handleJsonpath kv impl
+  -- the real NextIterator under real concurrency (harness runIter). Model: `iterRun true` never reaches `fatal` for any
+  -- number of goroutines and any schedule (C19_iterator_interleaving); the counter of a segment hands out 0, 1, 2, …
+  -- (`iterStep`, pc 2), so no value twice and none missing; Rand is `intn` (inside [0, n)).
+  | "iter" =>
+    if impl.startsWith "PANIC" then ("-", s!"fail:panic:{impl.take 160}")
+    else
+      let g := (getN? kv "g").getD 2
+      let sched := (List.range (4 * g)).map (· % g)     -- every goroutine makes one call, round robin
+      let s := iterRun true g {} sched
+      (s!"fatal={if s.fatal then 1 else 0} dup=0 gap=0 randbad=0", "ok")
+  -- the real DNS-caching dialer + SimpleDNSCache under real concurrency (harness runDnsc). Model: `dnsDials {}` hands the
+  -- outcomes of the underlying dials through, never panics, remembers nothing for a refused dial and the address of the
+  -- first successful one (C19_dns_cache_transparent)
+  | "dnsc" =>
+    if impl.startsWith "PANIC" then ("-", s!"fail:panic:{impl.take 160}")
+    else
+      let os : List DialOutcome := [.refused, .connected, .refused, .connected]
+      match dnsDials {} false os with
+      | .ok (rs, cached) => (s!"fatal=0 bad={if rs == os && cached then 0 else 1}", "ok")
+      | .panic m => (s!"fatal=1 {m}", "ok")
   | "run" => if impl.startsWith "PANIC" then ("-", s!"fail:panic:{impl.take 160}") else handleRun kv impl
   | _ => ("-", "fail:driver:unknown case kind")
 
